@@ -54,7 +54,7 @@ func runParse(c *vlib.Ctx) {
 		peers = append(peers, id)
 	}
 	sort.Slice(peers, func(i, j int) bool { return peers[i] < peers[j] }) // index order = id order
-	for _, j := range junkStrings { // the junk list is the harness' statement of what does not parse
+	for _, j := range junkStrings {                                       // the junk list is the harness' statement of what does not parse
 		if _, err := multiaddr.NewMultiaddr(j); err == nil {
 			panic("harness: junk string parses: " + strconv.Quote(j))
 		}
